@@ -103,7 +103,7 @@ RetChecks(r) ==
                                  /\ Len(r.list) = Cardinality(Rng(r.list))>>}
     [] r.op = "tags" -> {<<"TagsFaithful", r.res = "ok" /\ Rng(r.list) = {x[2] : x \in {y \in pre.tags : y[1] = App}}    \* including the referrers tags the client itself maintains
                                            /\ Len(r.list) = Cardinality(Rng(r.list))>>}
-    [] r.op = "seek" ->
+    [] r.op \in {"seek", "seekref"} ->       \* through Fetch(descriptor) or Blobs().FetchReference(digest)
          {<<"SeekFaithful", IF ~HasBlob(pre, k) THEN r.res = "notfound"
                             ELSE r.res = "ok" /\ (r.seekable = u.profile.range) /\ (r.seekable => SeekOK(r.steps, 1, 0, r.size))>>}
     [] OTHER -> {}
